@@ -8,10 +8,11 @@ PROP = "C06"
 LEVEL = "other"
 H = "vf.contracts.c_expr."
 X = "a816.parse.ast.expression."
-FUNCTIONS = [X + "eval_expression", X + "shunting_yard", X + "eval_number", X + "reverse_find_token", "a816.symbols.Scope.value_for", "a816.symbols.Scope.__getitem__"]
+FUNCTIONS = [X + "eval_expression", X + "shunting_yard", X + "eval_number", X + "reverse_find_token", "a816.symbols.Scope.value_for", "a816.symbols.Scope.__getitem__",
+             "a816.parse.parser_states.parse_expression", "a816.parse.parser_states._parse_expression"]
 MIN_OBLIGATIONS = 1500
 EXPLANATION = ("For every expression tree shape over unary - ~, binary * + - << >> & | and parentheses up to a structural bound (quick: 3 operators; "
-               "thorough: 4), the REAL shunting_yard and eval_expression are executed symbolically on the shape's token list with identifier operands "
+               "thorough: 4), the REAL parse_expression (tokens -> prefix/infix classification), shunting_yard and eval_expression are executed symbolically on the shape's TOKEN list with identifier operands "
                "of arbitrary integer value, and the result is proved equal to the reference semantics (precedence, associativity, complement width) "
                "for ALL operand values -- unbounded in values, bounded in structure.  Literal bases, the precedence table and undefined names are "
                "separate obligations.  Text -> tokens (two lexing contexts, spacing) -> value is the bounded part.")
@@ -94,6 +95,16 @@ def build_node(B, tree):
     return B.inst("a816.parse.ast.nodes.ExpressionAstNode", kind="expression", file_info=first, tokens=B.list(nodes))
 
 
+def build_parser(B, tree):
+    from vf.specs.expr_ref import tokens_of
+    toks = []
+    for tx in tokens_of(tree):
+        tt = "LPAREN" if tx == "(" else "RPAREN" if tx == ")" else "IDENTIFIER" if tx in NAMES else "OPERATOR"
+        toks.append(B.inst("a816.parse.tokens.Token", type=B.enum("a816.parse.tokens.TokenType", tt), value=tx, position=None))
+    toks.append(B.inst("a816.parse.tokens.Token", type=B.enum("a816.parse.tokens.TokenType", "EOF"), value="", position=None))
+    return B.inst("a816.parse.parser.Parser", tokens=B.list(toks), pos=0, initial_state=None)
+
+
 def lift_tree(B, t):
     return tuple(lift_tree(B, x) if isinstance(x, tuple) else x for x in t)
 
@@ -104,7 +115,7 @@ def shape_tree(tree):
         res = shapes.resolver(B)
         root = B.I.hget(B.st, res).fields["current_scope"]
         B.I.hmut(B.st, B.I.hget(B.st, root).fields["symbols"]).items.update(env)
-        return {"node": build_node(B, tree), "resolver": res, "tree": tree, "env": B.dict(env)}
+        return {"p": build_parser(B, tree), "resolver": res, "tree": tree, "env": B.dict(env)}
     return sh
 
 
@@ -137,7 +148,8 @@ def cases(E):
         # thorough: every shape up to 3 operators + a fixed quarter of the 4-operator shapes
         if (not thorough and nops == 3 and h % 8) or (thorough and nops == 4 and h % 4):
             continue
-        cs.append(Case(H + "eval_shape_contract", label(t), shape_tree(t), target=[X + "eval_expression", X + "shunting_yard"], group="shapes", timeout_ms=20000))
+        cs.append(Case(H + "eval_shape_from_tokens_contract", label(t), shape_tree(t), target=[X + "eval_expression", X + "shunting_yard", "a816.parse.parser_states.parse_expression",
+                                                                                                   "a816.parse.parser_states._parse_expression"], group="shapes", timeout_ms=20000))
     cs.append(Case(H + "precedence_table_contract", "live table", lambda B: {}, target=[]))
     for text, val in (("0", 0), ("255", 255), ("0xff", 255), ("0xFF", 255), ("0xAbCd", 0xABCD), ("0b1010", 10), ("0x10000", 65536), ("0b0", 0), ("1000000", 1000000), ("007", 7)):
         cs.append(Case(H + "eval_number_contract", text, lambda B, text=text, val=val: {"text": text, "value": val}, target=[X + "eval_number"]))
@@ -153,10 +165,10 @@ def _undef(B):
     return {"node": build_node(B, tree), "resolver": res}
 
 
-OPTIONAL_CHECKS = {"eval_shape_contract": ["refuses_like_reference", "negative_shift_refused", "value_is_conventional"]}
+OPTIONAL_CHECKS = {"eval_shape_from_tokens_contract": ["refuses_like_reference", "negative_shift_refused", "value_is_conventional"]}
 
 
-QUICK_MUTANTS = 3
+QUICK_MUTANTS = 4
 
 
 def bounded(tier, seed):
@@ -167,6 +179,7 @@ def bounded(tier, seed):
 def mutants():
     from vf.pyvc.mutate import textual
     return [
+        Mutant("_parse_expression:prefix-minus-classified-as-infix", "a816.parse.parser_states._parse_expression", textual("tokens.append(UnaryOp(current_token))", "tokens.append(BinOp(current_token))"), only_harness="eval_shape", max_cases=400),
         Mutant("eval_expression:operands-swapped", X + "eval_expression", textual("r = v1 - v2", "r = v2 - v1"), only_harness="eval_shape", max_cases=400),
         Mutant("shunting_yard:<=-to-<", X + "shunting_yard", textual("<= current_precedence", "< current_precedence"), only_harness="eval_shape", max_cases=400),
         Mutant("eval_expression:complement-16bit-threshold", X + "eval_expression", textual("v1.bit_length() <= 16", "v1.bit_length() <= 15"), only_harness="eval_shape", max_cases=400),
